@@ -1,5 +1,77 @@
-import SmtpV.Model.Server
-import SmtpV.Spec.Monitors
-/-! # C05 (theorems follow) -/
+import SmtpV.Proofs.Framing
+/-!
+# C05 — BDAT chunks are framed by octet count
+
+Wire-model level (`Wire.W`: network segments below bufio below the line limiter; `Server.bufRead`, `discardN`,
+`copyChunk`, `discardChunkN`; tied to conn.go by the `conv` correspondence).  `pending w` is the octet stream still to
+be read — what is buffered followed by the segments to come.  The theorems say that reading a chunk takes exactly
+the declared octets off that stream, for every segmentation and every buffer content.  Binary transparency of the
+pipe and "one reply per BDAT" are decided by the monitors and the correspondence (DESIGN.md 0.3).
+-/
 namespace SmtpV.Props.C05
+open SmtpV SmtpV.Wire SmtpV.Server
+
+theorem sum_ge (segs : List Bytes) : segs.flatten.length ≤ (segs.map (fun s => s.length / 1 + 1)).sum := by
+  induction segs with
+  | nil => simp
+  | cons s t ih =>
+    simp only [List.flatten_cons, List.length_append, List.map_cons, List.sum_cons]
+    have : s.length / 1 = s.length := Nat.div_one _
+    omega
+
+theorem fuel_enough (w : W) : (pending w).length ≤ wireFuel w := by
+  have := sum_ge w.segs
+  simp only [wireFuel, fuelOf, pending, List.length_append]
+  omega
+
+/-- **C05_frame_any_source.**  Copying a chunk into the delivery pipe with the limit lifted: whatever the source and the
+    backend do (segments of any size, errors, a backend that stops reading), what has been taken off the stream is
+    exactly its first `n - left` octets. -/
+theorem C05_frame_any_source (fuel : Nat) (s : S) (k n cap : Nat) (hl : s.w.limit = 0) :
+    (copyChunk fuel s k n cap).2.1 ≤ n ∧
+    pending (copyChunk fuel s k n cap).1.w = (pending s.w).drop (n - (copyChunk fuel s k n cap).2.1) :=
+  ⟨(copyChunk_frame fuel s k n cap hl).1, (copyChunk_frame fuel s k n cap hl).2.1⟩
+
+/-- **C05_refused_chunk_discarded.**  A refused BDAT whose `n` declared octets are (or will be) on a live connection:
+    exactly those `n` octets are skipped — the next command line starts at octet `n` of the stream — and the line
+    limit is back in force.  Nothing depends on how the stream is cut into segments or on what bufio had buffered. -/
+theorem C05_refused_chunk_discarded (s : S) (n : Nat) (hw : Live s.w) (hn : n ≤ (pending s.w).length) :
+    pending (discardChunkN s (some n)).w = (pending s.w).drop n ∧
+    (discardChunkN s (some n)).w.limit = s.cfg.maxLine ∧ Live (discardChunkN s (some n)).w := by
+  unfold discardChunkN setW
+  have hlive0 : Live { s.w with limit := 0 } := hw
+  have hp0 : pending { s.w with limit := 0 } = pending s.w := rfl
+  obtain ⟨h1, h2⟩ := discardN_exact (wireFuel s.w) { s.w with limit := 0 } n rfl hlive0 (by rw [hp0]; exact hn)
+    (Nat.le_trans hn (fuel_enough s.w))
+  refine ⟨?_, rfl, ?_⟩
+  · show pending { (discardN (wireFuel s.w) { s.w with limit := 0 } n) with limit := s.cfg.maxLine } = _
+    rw [← hp0, ← h1]; rfl
+  · exact h2
+
+/-- **C05_failed_chunk_skipped.**  A chunk that the delivery did not take completely (the backend returned early, the
+    pipe was closed): the server copies as far as it gets and discards the rest — on a live connection holding the `n`
+    declared octets, exactly `n` are gone and the next command starts right behind them. -/
+theorem C05_failed_chunk_skipped (s : S) (k n cap : Nat) (hl : s.w.limit = 0) (hw : Live s.w) (hcap : 0 < cap)
+    (hn : n ≤ (pending s.w).length) (f1 : Nat) :
+    pending (discardN (wireFuel (copyChunk f1 s k n cap).1.w) (copyChunk f1 s k n cap).1.w (copyChunk f1 s k n cap).2.1) =
+      (pending s.w).drop n :=
+  copy_then_discard_exact s k n cap hl hw hcap hn f1 _ (fuel_enough _)
+
+/-- **C05_segmentation_independent.**  Two connections carrying the same octet stream in different segmentations (and
+    with different amounts already buffered) are at the same point of the stream after the chunk has been skipped. -/
+theorem C05_segmentation_independent (s1 s2 : S) (n : Nat) (h1 : Live s1.w) (h2 : Live s2.w)
+    (hsame : pending s1.w = pending s2.w) (hn : n ≤ (pending s1.w).length) :
+    pending (discardChunkN s1 (some n)).w = pending (discardChunkN s2 (some n)).w := by
+  rw [(C05_refused_chunk_discarded s1 n h1 hn).1, (C05_refused_chunk_discarded s2 n h2 (by rw [← hsame]; exact hn)).1, hsame]
+
+/-! ### non-vacuity: payload that looks like protocol, split in the middle of the look-alike, part of it buffered -/
+
+example : pending ({ buf := "\r\n.\r".b, segs := ["\nMAIL FROM:<ba".b, "it@x>\r\nNOOP\r\n".b] } : W) =
+    "\r\n.\r\nMAIL FROM:<bait@x>\r\nNOOP\r\n".b := by decide +kernel
+
+def exS : S :=
+  { w := { buf := "\r\n.\r".b, segs := ["\nMAIL FROM:<ba".b, "it@x>\r\nNOOP\r\n".b] }, cfg := { maxLine := 40 } }
+
+example : pending (discardChunkN exS (some 25)).w = "NOOP\r\n".b := by decide +kernel
+
 end SmtpV.Props.C05
